@@ -126,6 +126,18 @@ CLAIMED = {
         note=BASE_NOTE + 'PARTIAL: uamiv (average/emissions/instant/airquality) only; lateral_boundary, landuse and the meteorological formats are not in this check yet. Idempotent rewrite is checked on the real code, not proved.',
         technique='Lean 4 proof (codec/stride bridge by induction over steps, species, layers; omega for date arithmetic) + model/implementation correspondence + round-trip oracle',
         design='§7 C08-C09-C13-C14'),
+    'C06': dict(
+        text=('Lean model of file arithmetic (pncbo), mask() and eval over nested arrays of optional rationals; theorems: '
+              'for two arrays of one shape (any rank) every result cell is the operator applied to the operand cells at '
+              'the same multi-index; a result cell is masked when an operand cell is masked, x/0 is masked, + - * / are '
+              'exact; declared coordinate variables and variables missing on the right pass through unchanged; mask() masks '
+              'a cell iff it was masked or satisfies one of the predicates / the where array, and never alters an unmasked '
+              'value. Whole-file correspondence for all 13 operators (int and float, masked operands, zero divisors), all '
+              'predicate subsets of mask(), and eval assignments, plus a numpy.ma oracle, on every run. One genuine defect '
+              '(masks of masked operands dropped) repaired by a fix: commit; one recorded finding (eval on rank-0 masked variables raises).'),
+        note=BASE_NOTE + 'float64 results compared with exact rationals within 1e-12; eval is modelled for the generated expression grammar (+ - * / unary -, literals), not arbitrary Python; pncexpr / mask_vals front-ends are not exercised.',
+        technique='Lean 4 proof (structural induction on nested arrays; case analysis of predicates) + model/implementation correspondence + numpy.ma oracle',
+        design='§7 C06'),
 }
 
 NOT_YET = {}
